@@ -37,6 +37,8 @@ def kv(words, key):
 def signature(case, idx, verdict, table):
     """A stable name for the class of failing input."""
     op = vlib.strip_obs(case["ops"][idx][0]).split()
+    if op and op[0] == "fuzz":
+        return fuzz_signature(op, verdict, table)
     is_login = kv(op, "segs") == "auth/login" and len(op) > 2 and op[2] == "POST"
     kind = "login" if is_login else (op[0] if op else "?")
     row = table.get(int(op[1])) if len(op) > 1 and op[1].isdigit() else None
@@ -106,6 +108,86 @@ def exec_ops(ctx, case_id, ops, tag):
     if not cs:
         return {"id": case_id, "ops": [(o, "") for o in ops], "crash": "trace/verdict length mismatch"}
     return cs[0]
+
+
+def fuzz_signature(op, verdict, table):
+    """oracle:no_panic:fuzz:<panic location;message | no-response | daemon-down>:<METHOD><pattern>:<segment name | body>"""
+    row = table.get(int(op[1])) if len(op) > 1 and op[1].isdigit() else None
+    where = f"{op[2]}{row['pattern']}" if row else "?"
+    what = kv(op, "what") or "?"
+    what = "body" if what.startswith("body:") else what
+    if verdict.startswith("FAIL oracle"):
+        w = verdict.split()
+        loc = "?"
+        for x in w[2:]:
+            if x.startswith("panic="):
+                loc = x[6:]
+            elif x in ("no-response", "daemon-down"):
+                loc = x
+        return f"oracle:no_panic:fuzz:{loc}:{where}:{what}"
+    return "bad-op:fuzz"
+
+
+def run_pathfuzz(ctx, max_reports=4):
+    """C16: profile=pathfuzz of the http harness. Returns True if a failing input that is not a recorded
+    finding was found."""
+    table = routes()
+    found = False
+    if kmodel(ctx) is None:
+        ctx.failed_obligations.append("kmodel-build")
+        return False
+    tr = ctx.work / "pathfuzz.trace"
+    r = vlib.run([vlib.hbin("http"), "--seed", str(ctx.seed), "--tier", ctx.tier, "--out", str(tr), "profile=pathfuzz"],
+                 timeout=3 * 3600)
+    lines = tr.read_text().splitlines() if tr.exists() else []
+    if r.returncode != 0:
+        # the process (the daemon runs in it) died: the request that was under way is the last `#pending` line
+        pend = [l for l in lines if l.startswith("#pending ")]
+        last = pend[-1][9:] if pend and not (lines and not lines[-1].startswith("#")) else None
+        ctx.log(f"harness http (pathfuzz) exited with {r.returncode}: {r.stdout[-1500:]}")
+        if last:
+            op = last.split()
+            sig = fuzz_signature(op, "FAIL oracle no_panic daemon-down", table).replace(":daemon-down:", ":process-exit:")
+            cfgl = [l for l in lines if l.split()[:1] == ["cfg"]]
+            vlib.report_violation(ctx, "implementation-vs-oracle", {
+                "stream": "http", "harness": "http", "case": "pathfuzz-exit", "ops": cfgl + [last],
+                "verdict": "FAIL oracle no_panic process-exit", "request": last, "output": r.stdout[-2000:],
+            }, signature=sig)
+            found = found or not vlib.match_known(ctx.pid, sig)
+        else:
+            vlib.report_violation(ctx, "harness-crash", {"stream": "http", "output": r.stdout[-3000:]}, signature="crash:http:pathfuzz")
+            found = True
+        # judge what was recorded before the exit as well
+        tr.write_text("\n".join(l for l in lines if not l.startswith("#")) + "\n")
+    vf = Path(str(tr) + ".verdict")
+    if not run_model(ctx, tr, vf):
+        vlib.report_violation(ctx, "model-driver-crash", {"stream": "http"}, found_input=False)
+        return found
+    cases = vlib.parse_cases(tr, vf)
+    if cases is None:
+        vlib.report_violation(ctx, "model-driver-desync", {"stream": "http"}, found_input=False)
+        return found
+    vlib.histogram(ctx, cases)
+    ctx.traces_validated += len(cases)
+    reported = {}
+    for c in cases:
+        cfgl = [vlib.strip_obs(t) for t, _ in c["ops"] if t.split()[:1] == ["cfg"]]
+        for idx, v in failing_lines(c):
+            sig = signature(c, idx, v, table)
+            if vlib.match_known(ctx.pid, sig):
+                vlib.report_violation(ctx, "known", {}, signature=sig)
+                continue
+            found = True
+            if sig in reported or len(reported) >= max_reports:
+                continue
+            reported[sig] = 1
+            t = c["ops"][idx][0]
+            vlib.report_violation(ctx, "implementation-vs-oracle", {
+                "stream": "http", "harness": "http", "case": c["id"],
+                "ops": cfgl + [vlib.strip_obs(t)], "trace": [f"{t}  ## {v}"], "verdict": v, "request": t,
+                "replay_cmd": f"./check {ctx.pid} --replay <this file>",
+            }, signature=sig)
+    return found
 
 
 def failing_lines(case):
